@@ -74,6 +74,23 @@ Definition spec_main_fs (fuel:nat) (prog:ast) (stdin:list (list N)) (disk:list (
   let (h, t) := alloc heap0 prog {| funs := []; args := [] |} in
   bs fuel [] h (world_start stdin disk) (TComp (call (PFormat (VThunk t) false))).
 
+(* main.main on SEVERAL expressions (and any format_io): each expression is a separate evaluation - its own delayed expression in the empty
+   environment, formatted - in the heap and the world the earlier ones left (input consumed, output written, files, the module registry and the
+   delayed expressions it points to); the first failure ends the list (main.main lets it propagate) *)
+Definition spec_main_in (fuel:nat) (h:heap) (w:world) (prog:ast) (fio:bool) : out :=
+  let (h1, t) := alloc h prog {| funs := []; args := [] |} in
+  bs fuel [] h1 w (TComp (call (PFormat (VThunk t) fio))).
+Fixpoint spec_many (fuel:nat) (h:heap) (w:world) (progs:list ast) (fio:bool) : list out :=
+  match progs with
+  | [] => []
+  | p :: r => let o := spec_main_in fuel h w p fio in
+              o :: match o with Done h' w' (inl _) _ => spec_many fuel h' w' r fio | _ => [] end
+  end.
+Lemma spec_main_is_in fuel prog stdin : spec_main fuel prog stdin = spec_main_in fuel heap0 (world_start stdin []) prog false.
+Proof. reflexivity. Qed.
+Lemma spec_main_fs_is_in fuel prog stdin disk : spec_main_fs fuel prog stdin disk = spec_main_in fuel heap0 (world_start stdin disk) prog false.
+Proof. reflexivity. Qed.
+
 (* executable cross-check used by the harness: both semantics on the same program *)
 Definition agree (fuel:nat) (prog:ast) (stdin:list (list N)) : option bool :=
   match spec_main fuel prog stdin, run_main (fuel * 64) prog stdin with
